@@ -70,7 +70,7 @@ theorem chain_innerAt_from {db : Db} : ∀ {js : List Join} {k : Nat} {e0 e : En
       refine ⟨o, ?_, hc⟩
       obtain ⟨rest, rfl, _⟩ := chain_prefix hc
       have : (e0 ++ [o] ++ rest).getD (e0.length + 0) none = o := by
-        rw [List.append_assoc]; simpa using getD_append_length e0 rest o none
+        rw [List.append_assoc]; simp [List.getD]
       rw [this] at hne
       cases o with
       | some r => exact hl
@@ -204,7 +204,7 @@ theorem envTouched_prefix {cands : List (Nat × List Key)} {srcs : List Src} {e0
 
 theorem srcs_get_join (base : Src) (pre : List Join) (j : Join) (post : List Join) :
     (base :: (pre ++ j :: post).map (·.src))[pre.length + 1]? = some j.src := by
-  simp [List.getElem?_append_right]
+  simp
 
 theorem chain_transfer {q : Query} {dbA dbB : Db} {cands : List (Nat × List Key)} (hcov : Covered q dbA dbB cands)
     {r0 : Row} (hr0 : r0 ∈ dbA q.base.tbl) :
@@ -222,7 +222,7 @@ theorem chain_transfer {q : Query} {dbA dbB : Db} {cands : List (Nat × List Key
     have hsrc : q.srcs[e0.length]? = some j.src := by
       rw [hlen]; unfold Query.srcs; rw [hq]; exact srcs_get_join q.base pre j js
     have hget : e.getD e0.length none = o := by
-      rw [hrest, List.append_assoc]; simpa using getD_append_length e0 rest o none
+      rw [hrest, List.append_assoc]; simp [List.getD]
     have hlB : Link dbB j e0 o := by
       cases o with
       | some r =>
